@@ -166,36 +166,69 @@ Qed.
 (* ================================================================================================ *)
 (* 3. silent clients                                                                                 *)
 
+(* the outcome a time-out produces in the phase the thread is in *)
+Definition timeout_outcome (w : worker) : outcome := match w_st w with WBody => OAborted | _ => OTimeout end.
+
+(* In WHICHEVER phase the thread waits for the client -- nothing sent yet, silence inside the request head, head
+   complete with the body outstanding, silence in the middle of the body -- the time-out is enabled and finishes
+   the connection. *)
 Theorem c20_silent : forall s w, reachable cfg s -> timeout_on cfg = true ->
-  In w (workers s) -> w_st w = WReading -> w_cl w = CIdle ->
-  exists s', step cfg s (TTimeout (w_id w)) = Some (s', [OTimedOut (w_id w)]) /\
+  In w (workers s) -> waits_for_client w = true ->
+  exists s' ob, step cfg s (TTimeout (w_id w)) = Some (s', [ob]) /\
+    (ob = OTimedOut (w_id w) \/ ob = OBodyTimedOut (w_id w)) /\
     pc s' = pc s /\ stop s' = stop s /\ length (workers s') = length (workers s) /\
-    In (set_st (WDone OTimeout) w) (workers s').
+    In (set_st (WDone (timeout_outcome w)) w) (workers s').
 Proof.
-  intros s w Hr Ht Hin Hst Hcl. pose proof (reachable_Inv cfg s Hr) as HI.
+  intros s w Hr Ht Hin Hw. pose proof (reachable_Inv cfg s Hr) as HI.
   pose proof (In_find_w (workers s) w (NoDup_ws s (inv_nodup cfg s HI)) Hin) as Hf.
-  eexists. simpl. rewrite Ht, Hf, Hst, Hcl. split; [reflexivity|]. simpl. split; [reflexivity|]. split; [reflexivity|].
-  split; [apply length_upd_w|]. apply In_upd_w_same; auto.
+  unfold waits_for_client in Hw. unfold timeout_outcome. simpl. rewrite Ht, Hf.
+  destruct (w_st w) eqn:Est; try discriminate.
+  - rewrite Hw. eexists. eexists. split; [reflexivity|]. split; [left; reflexivity|]. simpl.
+    split; [reflexivity|]. split; [reflexivity|]. split; [apply length_upd_w|]. apply In_upd_w_same; auto.
+  - apply negb_true_iff in Hw. rewrite Hw. eexists. eexists. split; [reflexivity|]. split; [right; reflexivity|]. simpl.
+    split; [reflexivity|]. split; [reflexivity|]. split; [apply length_upd_w|]. apply In_upd_w_same; auto.
+Qed.
+
+(* Every unfinished worker is in exactly one of three situations: it waits for the client (then the time-out is
+   enabled, c20_silent), or the thread itself can move on (input is there: TRead / TBody enabled), or it is inside
+   the application handler and not waiting for the client.  There is no phase in which a thread waits for the
+   client without a time-out. *)
+Theorem c20_every_wait_has_timeout : forall s w, reachable cfg s -> In w (workers s) -> is_done w = false ->
+  waits_for_client w = true \/
+  (exists s' o, step cfg s (TRead (w_id w)) = Some (s', o)) \/
+  (exists s' o, step cfg s (TBody (w_id w)) = Some (s', o)) \/
+  w_st w = WHandling.
+Proof.
+  intros s w Hr Hin Hd. pose proof (reachable_Inv cfg s Hr) as HI.
+  pose proof (In_find_w (workers s) w (NoDup_ws s (inv_nodup cfg s HI)) Hin) as Hf.
+  unfold waits_for_client, is_done in *. destruct (w_st w) eqn:Est; try discriminate.
+  - destruct (w_cl w) as [| |m full|] eqn:Ecl; simpl; auto.
+    + right. left. simpl. rewrite Hf, Est, Ecl. destruct m as [r|]; [|eauto].
+      destruct (gate_status (gate (gc cfg) r)); eauto.
+    + right. left. simpl. rewrite Hf, Est, Ecl. eauto.
+  - destruct (body_full (w_cl w)) eqn:Eb; simpl; auto.
+    right. right. left. simpl. rewrite Hf, Est, Eb. eauto.
+  - auto.
 Qed.
 
 (* ... and then its slot is freed by the next iteration (composition with c20_progress_reap) *)
 Theorem c20_silent_frees_slot : forall s rlw rll w, reachable cfg s -> timeout_on cfg = true ->
   pc s = PSelect rlw rll -> stop s = false ->
-  In w (workers s) -> w_st w = WReading -> w_cl w = CIdle ->
-  exists s1 s2 rw rls, step cfg s (TTimeout (w_id w)) = Some (s1, [OTimedOut (w_id w)]) /\
+  In w (workers s) -> waits_for_client w = true ->
+  exists s1 ob s2 rw rls, step cfg s (TTimeout (w_id w)) = Some (s1, [ob]) /\
     step cfg s1 LSelect = Some (s2, [ORset rw rls false]) /\ In (w_id w) rw /\
     (exists acc s3 o3, step cfg s2 (LBody acc) = Some (s3, o3)) /\
     forall acc s3 o3, step cfg s2 (LBody acc) = Some (s3, o3) ->
-      ~ In (w_id w) (ids (workers s3)) /\ In (w_id w, OTimeout) (finished s3) /\
+      ~ In (w_id w) (ids (workers s3)) /\ In (w_id w, timeout_outcome w) (finished s3) /\
       step cfg s3 LBuild = Some (with_pc s3 (PSelect (ids (workers s3)) true), [ORlist (ids (workers s3)) true]).
 Proof.
-  intros s rlw rll w Hr Ht Hpc Hstop Hin Hst Hcl.
-  destruct (c20_silent s w Hr Ht Hin Hst Hcl) as [s1 [H1 [H2 [H3 [_ H4]]]]].
+  intros s rlw rll w Hr Ht Hpc Hstop Hin Hw.
+  destruct (c20_silent s w Hr Ht Hin Hw) as [s1 [ob [H1 [_ [H2 [H3 [_ H4]]]]]]].
   assert (Hr1 : reachable cfg s1) by (eapply reach_step; eauto).
   rewrite Hpc in H2. rewrite Hstop in H3.
-  destruct (c20_progress_reap s1 rlw rll (set_st (WDone OTimeout) w) OTimeout Hr1 H2 H3 H4 eq_refl)
+  destruct (c20_progress_reap s1 rlw rll (set_st (WDone (timeout_outcome w)) w) (timeout_outcome w) Hr1 H2 H3 H4 eq_refl)
     as [s2 [rw [rls [A [B [C D]]]]]].
-  exists s1, s2, rw, rls. split; [exact H1|]. split; [exact A|]. split; [exact B|]. split; [exact C|].
+  exists s1, ob, s2, rw, rls. split; [exact H1|]. split; [exact A|]. split; [exact B|]. split; [exact C|].
   intros acc s3 o3 Hb. destruct (D acc s3 o3 Hb) as [D1 [D2 [_ D4]]]. auto.
 Qed.
 
@@ -282,13 +315,13 @@ Proof.
 Qed.
 
 (* in the server: the thread answers an oversized request itself; the handler is not entered *)
-Theorem c20_413 : forall s w r z, reachable cfg s -> internal (gc cfg) = true -> 0 < max_len (gc cfg) ->
-  In w (workers s) -> w_st w = WReading -> w_cl w = CSent (RHttp r) -> r_cl r = ClInt z -> max_len (gc cfg) < z ->
+Theorem c20_413 : forall s w r full z, reachable cfg s -> internal (gc cfg) = true -> 0 < max_len (gc cfg) ->
+  In w (workers s) -> w_st w = WReading -> w_cl w = CSent (RHttp r) full -> r_cl r = ClInt z -> max_len (gc cfg) < z ->
   exists s' st, step cfg s (TRead (w_id w)) = Some (s', [OAnswer (w_id w) st]) /\
     entered s' = entered s /\ In (set_st (WDone (OResp st)) w) (workers s') /\
     (r_pref r = PrefOk -> r_method r = true -> r_wk r = WkNone -> st = 413%N).
 Proof.
-  intros s w r z Hr Hi Hm Hin Hst Hcl Hc Hz. pose proof (reachable_Inv cfg s Hr) as HI.
+  intros s w r full z Hr Hi Hm Hin Hst Hcl Hc Hz. pose proof (reachable_Inv cfg s Hr) as HI.
   pose proof (In_find_w (workers s) w (NoDup_ws s (inv_nodup cfg s HI)) Hin) as Hf.
   simpl. rewrite Hf, Hst, Hcl.
   destruct (c20_gate_413 (gc cfg) r z Hi Hm Hc Hz) as [[st Hg]|Hg]; rewrite Hg; simpl.
@@ -303,7 +336,8 @@ Qed.
 
 (* the handler is entered only by a TRead of a request for which the gate says "dispatch" *)
 Theorem c20_enter_only_dispatch : forall s e s' o c, step cfg s e = Some (s', o) -> In (OEnter c) o ->
-  exists w r, e = TRead c /\ find_w c (workers s) = Some w /\ w_cl w = CSent (RHttp r) /\ gate (gc cfg) r = GDispatch.
+  exists w r full, e = TRead c /\ find_w c (workers s) = Some w /\ w_cl w = CSent (RHttp r) full /\
+    gate (gc cfg) r = GDispatch.
 Proof.
   intros s e s' o c Hs Hin. destruct e; simpl in Hs;
     repeat match type of Hs with
@@ -311,9 +345,9 @@ Proof.
            end;
     inversion Hs; subst; simpl in Hin;
     repeat match goal with H : _ \/ _ |- _ => destruct H end; try discriminate; try contradiction.
-  match goal with H : OEnter _ = OEnter _ |- _ => inversion H; subst end.
-  eexists. eexists. split; [reflexivity|]. split; [eassumption|]. split; [eassumption|].
-  destruct (gate (gc cfg) r); simpl in *; try discriminate. reflexivity.
+  all: match goal with H : OEnter _ = OEnter _ |- _ => inversion H; subst end.
+  all: eexists; eexists; eexists; split; [reflexivity|]; split; [eassumption|]; split; [eassumption|].
+  all: destruct (gate (gc cfg) r); simpl in *; try discriminate; reflexivity.
 Qed.
 
 (* ================================================================================================ *)
@@ -423,7 +457,7 @@ Qed.
 Theorem c20_shutdown : forall s, reachable cfg s -> pc s = PDone ->
   stop s = true /\ workers s = [] /\
   (forall c, In c (accepted s) -> exists o, In (c, o) (finished s)) /\
-  (forall c, In c (entered s) -> In (c, OHandled) (finished s)).
+  (forall c, In c (entered s) -> In (c, OHandled) (finished s) \/ In (c, OAborted) (finished s)).
 Proof.
   intros s Hr Hpc. pose proof (reachable_Inv cfg s Hr) as HI.
   destruct (reachable_done_inv s Hr Hpc) as [Hw _]. split; [apply (inv_final cfg s HI); right; exact Hpc|].
@@ -449,7 +483,7 @@ Proof.
   - exists [LClose]. simpl. rewrite Hpc, Hws. eexists. eexists. split; [constructor; auto|]. split; [reflexivity|].
     split; reflexivity.
   - assert (Hdw : is_done w = true) by (apply Hd; left; reflexivity). unfold is_done in Hdw.
-    destruct (w_st w) as [| |ow] eqn:Est; try discriminate.
+    destruct (w_st w) as [| | |ow] eqn:Est; try discriminate.
     set (s1 := mkS PFinal rest (backlog s) (stop s) (next_id s) (finished s ++ [(w_id w, ow)]) (accepted s) (entered s)).
     destruct (IH s1 eq_refl eq_refl) as [evs [s' [o [H1 [H2 [H3 H4]]]]]]; [intros; apply Hd; right; auto|].
     exists (LFinal :: evs). simpl. rewrite Hpc, Hws, Est. fold s1. rewrite H2.
